@@ -6,6 +6,7 @@ import (
 	"strconv"
 	"strings"
 	"sync"
+	"sync/atomic"
 	"time"
 
 	lime "github.com/takenet/lime-go"
@@ -266,8 +267,17 @@ func runC05History(transport, role string, ids []int, history []hAction) (*c05Ca
 		return v
 	}
 	stopStream := make(chan struct{})
+	var streamPaused int32
 	go func() {
 		for {
+			if atomic.LoadInt32(&streamPaused) == 1 {
+				select {
+				case <-stopStream:
+					return
+				case <-time.After(200 * time.Microsecond):
+				}
+				continue
+			}
 			select {
 			case <-stopStream:
 				return
@@ -346,6 +356,11 @@ func runC05History(transport, role string, ids []int, history []hAction) (*c05Ca
 			ctx, cancel := context.WithTimeout(context.Background(), time.Second)
 			_ = peer.SendResponseCommand(ctx, resp)
 			cancel()
+			if atomic.LoadInt32(&streamPaused) == 1 {
+				// nobody reads the response stream for now: there is nothing to wait for
+				time.Sleep(2 * time.Millisecond)
+				continue
+			}
 			holdCleanupArrived := g.waiting("process:before-cleanup")
 			quiet(400*time.Millisecond, func() bool {
 				n := 0
@@ -363,6 +378,16 @@ func runC05History(transport, role string, ids []int, history []hAction) (*c05Ca
 			}
 			before := g.waiting("process:before-cleanup")
 			quiet(400*time.Millisecond, func() bool { return returned[a.R] || g.waiting("process:before-cleanup") > before })
+		case "pause-stream":
+			atomic.StoreInt32(&streamPaused, 1)
+			time.Sleep(time.Millisecond)
+		case "resume-stream":
+			atomic.StoreInt32(&streamPaused, 0)
+			mu.Lock()
+			before := len(stream)
+			mu.Unlock()
+			quiet(400*time.Millisecond, func() bool { return len(stream) > before })
+			time.Sleep(5 * time.Millisecond)
 		case "hold-deliver":
 			g.hold("submit:after-lookup")
 		case "release-deliver":
@@ -555,7 +580,7 @@ func runC05Burst(transport, role string, k, id int) (*c05Case, error) {
 func runC05(env *Env) error {
 	env.Header = "From Coq Require Import List.\nImport ListNotations.\nFrom Lime Require Import Base.Res Chan.CmdTable Corr.C05."
 	env.ShardSize = 200
-	env.Rule = "quiescent histories: up to 4 concurrent ProcessCommand calls (ids colliding or not), every permutation of the responses for <= 3 in flight (quick) / <= 4 (thorough), duplicates, unknown ids, omissions with cancellation, late responses after a cancellation, id reuse after completion; calls whose send fails while the channel stays established followed by the same id again; bursts of 8 calls with one id released at the same instant against an echoing peer; gated histories (build-tag gate points) replaying the refutation witness of the tree as found and its neighbours; both roles, in-process and in-memory TCP. Non-trivial: at least two calls or a response that matches no pending call. Distinct by printed case."
+	env.Rule = "quiescent histories: up to 4 concurrent ProcessCommand calls (ids colliding or not), every permutation of the responses for <= 3 in flight (quick) / <= 4 (thorough), duplicates, unknown ids, omissions with cancellation, late responses after a cancellation, id reuse after completion; calls whose send fails while the channel stays established followed by the same id again; responses matching nothing while nobody reads the response stream (more than it holds); bursts of 8 calls with one id released at the same instant against an echoing peer; gated histories (build-tag gate points) replaying the refutation witness of the tree as found and its neighbours; both roles, in-process and in-memory TCP. Non-trivial: at least two calls or a response that matches no pending call. Distinct by printed case."
 	var rc c05Case
 	if ok, err := env.ReplayDesc(&rc); err != nil {
 		return err
@@ -645,6 +670,20 @@ func runC05(env *Env) error {
 				}
 				env.Count("failed-send")
 			}
+		}
+	}
+	// responses that match nothing while nobody reads the response stream: more of them than the stream holds
+	for _, tr := range []string{"inproc", "mem"} {
+		for _, role := range []string{"client", "server"} {
+			h := []hAction{start(0, 7), k("pause-stream")}
+			for i := 0; i < 14; i++ {
+				h = append(h, respond(30+i%3, 600+i))
+			}
+			h = append(h, k("resume-stream"), respond(7, 700))
+			if err := add(tr, role, []int{7}, h); err != nil {
+				return err
+			}
+			env.Count("unread-response-stream")
 		}
 	}
 	// bursts: calls with one id released at the same instant
